@@ -27,7 +27,7 @@ CHECKS = {
             SIM + "fault injection on stored bytes and in-pipeline buffers; prefix oracle over the whole call history"),
     "C03": ("exploration",
             "Structure-aware fault injection on stored bytes: mutations aimed at codec headers and tables (entropy NONE so transform headers are in the clear, transform NONE so entropy tables are at known offsets, full chains), forged container fields (length width/value, mode byte, announced size, early end marker), forged headers with recomputed checksum (block size, codec ids, output size, checksum width, version), truncation plus random tail, random bodies, splices, and blocks above 4 MiB with forged BWT primary indexes (helper goroutines). Decoder jobs 1-8 under the scheduler, further Reads after the first error. Oracle: no panic escapes, no deadlock (exact), step budget, and the worker process neither dies nor burns more than 60 s of CPU on one case (death/stall is attributed to the case in flight by start markers and confirmed by replaying it alone in a fresh process).",
-            "Hangs inside codec loops have no yield point: they are bounded by a CPU-time watchdog (60 s per case, 300 s on confirmation; fault-free cases take milliseconds). Forged block sizes are capped at 4 MiB (quick) / 64 MiB (thorough) so that legitimate allocation of declared sizes is not mistaken for a fault. A forged block length can legitimately make the decoder allocate up to 2 GiB (observation in DESIGN.md).",
+            "Hangs inside codec loops have no yield point: they are bounded by a watchdog on the user CPU time of the worker (60 s per case, 180 s on confirmation; fault-free cases take milliseconds; system time is excluded because page faults are two orders of magnitude slower when sixteen workers fault at once). Forged block sizes are capped at 4 MiB (quick) / 16 MiB (thorough) so that legitimate allocation of declared sizes is not mistaken for a fault. A forged block length can legitimately make the decoder allocate up to 2 GiB (observation in DESIGN.md).",
             SIM + "structure-aware corruption of stored streams; process-level oracle (death, CPU stall) with per-case attribution and isolated replay"),
     "C04": ("exploration",
             "Each case fixes (data, codecs, block size, checksum, hint) and compares the sink bytes of 2-3 simulated runs (jobs 1-64, any Write partition, any bitstream buffer size, any schedule policy incl. starvation) with a jobs=1 single-Write reference run. Sampling over schedules: the evidence reports distinct schedule signatures.",
